@@ -1,6 +1,6 @@
 #!/usr/bin/env python3
 """Rewrites DESIGN.md section 0.4 from seeded/*/meta.json."""
-import json, glob, os, re
+import sys, json, glob, os, re
 V = os.path.dirname(os.path.dirname(os.path.abspath(__file__)))
 rows = []
 for p in sorted(glob.glob(os.path.join(V, "seeded", "*", "meta.json"))):
@@ -27,8 +27,10 @@ txt = "### 0.4 Independently written breaking changes (`seeded/`)\n\n" \
       "| seed | property | change | needs | caught by (finding key) | note |\n|---|---|---|---|---|---|\n" + "\n".join(rows) + "\n\n"
 d = open(os.path.join(V, "DESIGN.md")).read()
 start = d.find("### 0.4 Independently written breaking changes")
-marker = "---------------------------------------------------------------------------\n\n## 1. What this family"
-end = d.find(marker)
+ends = [i for i in (d.find("### 0.5 ", max(start, 0)), d.find("-" * 75 + "\n\n## 1. What this family")) if i >= 0]
+if not ends:
+    sys.exit("seedtable: cannot find the end of section 0.4 in DESIGN.md - nothing written")
+end = min(ends)
 if start < 0:
     d = d[:end] + txt + d[end:]
 else:
